@@ -170,6 +170,8 @@ class Repo:
             raise AnchorMissing(f"package directory {self.pkg_dir} not found")
         self.modules: Dict[str, Module] = {}
         self.parse_errors: List[str] = []
+        self.canon_inlined: Dict[str, List[str]] = {}
+        self.equivalent_to_reference: Dict[str, List[str]] = {}
         self._load()
         self._index()
 
@@ -198,6 +200,26 @@ class Repo:
                 except SyntaxError as e:
                     self.parse_errors.append(f"{path}: {e}")
                     continue
+                inlined: List[str] = []
+                if os.environ.get("SA_NO_CANON") != "1":
+                    from .canon import canonicalise
+
+                    try:
+                        tree, inlined = canonicalise(tree, name)
+                    except Exception as e:  # canonicalisation must never hide a module
+                        self.parse_errors.append(f"{path}: canonicalisation failed: {type(e).__name__}: {e}")
+                        continue
+                self.canon_inlined.setdefault(name, []).extend(inlined)
+                if os.environ.get("SA_NO_CANON") != "1":
+                    from .reference import substitute_equivalents
+
+                    try:
+                        subs = substitute_equivalents(tree, name, is_pkg)
+                    except Exception as e:
+                        subs = []
+                        self.parse_errors.append(f"{path}: reference comparison failed: {type(e).__name__}: {e}")
+                    if subs:
+                        self.equivalent_to_reference.setdefault(name, []).extend(subs)
                 self.modules[name] = Module(
                     name=name,
                     path=path,
